@@ -117,11 +117,13 @@ def run(ctx: Ctx) -> None:
         if len(ctx.samples) < 3 and nontriv and len(src) < 60:
             ctx.sample({"input": src, "cfg": gens.cfg_key(cfg)[:80]})
     # ---- bounded-exhaustive line documents
-    shapes = gens.LINE_SHAPES_EXT if not quick else gens.LINE_SHAPES + ["> " + s for s in ("", "a|b", "-|-", "[a]: b", "```", "- a", "#")]
+    small = gens.LINE_SHAPES + ["> " + s for s in ("", "a|b", "-|-", "[a]: b", "```", "- a", "#")]
     kmax = 2 if quick else 3
     line_cfgs = [fixed[1], fixed[3], fixed[4], fixed[5]] if quick else fixed
     nl = 0
     for k in range(1, kmax + 1):
+        # thorough: the extended shape list up to 2 lines, the base list for 3 lines (131^3 x 8 renders would take an hour)
+        shapes = small if (quick or k == 3) else gens.LINE_SHAPES_EXT
         for src in gens.line_docs(k, shapes):
             for md, cfg in line_cfgs:
                 nl += 1
